@@ -149,8 +149,16 @@ class HistArith(Hist):
         call, desc = spec['bind'](host.real, chosen)
         self.ev['call'] = f'#{host.sid}.{desc}'
         self.ev['valid'] = True
+        repeat = (not spec.get('no_repeat')) and rng.random() < 0.12
         try:
             rv = call()
+            if repeat:
+                # the caller applies the same generator to the same operand list objects once more
+                rv = call()
+                spec = dict(spec)
+                spec.pop('bound_kind', None)
+                self.ev['call'] += ' [called twice]'
+                self.res.stats.probes.bump('gadget-called-twice-with-the-same-lists')
         except Exception as e:  # noqa
             where = innermost_cirbo_frame(e)
             self.ev['out'] = f'unexpected:{exc_name(e)}@{where}'
@@ -405,7 +413,8 @@ def build_specs(eng):
 
         def bind(host, chosen):
             a, b = chosen[:n], chosen[n:]
-            return (lambda: A.add_sum_two_numbers(host, list(a), list(b), big_endian=big)), f'add_sum_two_numbers({a},{b},big_endian={big})'
+            la, lb = list(a), list(b)
+            return (lambda: A.add_sum_two_numbers(host, la, lb, big_endian=big)), f'add_sum_two_numbers({a},{b},big_endian={big})'
 
         def check(ins, outs, L):
             for j in range(L):
@@ -424,7 +433,8 @@ def build_specs(eng):
 
         def bind(host, chosen):
             a, b = chosen[:n], chosen[n:]
-            return (lambda: A.add_sum_two_numbers_with_shift(host, shift, list(a), list(b), big_endian=big)), \
+            la, lb = list(a), list(b)
+            return (lambda: A.add_sum_two_numbers_with_shift(host, shift, la, lb, big_endian=big)), \
                 f'add_sum_two_numbers_with_shift(shift={shift},{a},{b},big_endian={big})'
 
         def check(ins, outs, L):
@@ -668,7 +678,8 @@ def build_specs(eng):
 
         def bind(host, chosen):
             a, b = chosen[:n], chosen[n:]
-            return (lambda: A.add_sub_two_numbers(host, list(a), list(b), big_endian=big)), f'add_sub_two_numbers({a},{b},big_endian={big})'
+            la, lb = list(a), list(b)
+            return (lambda: A.add_sub_two_numbers(host, la, lb, big_endian=big)), f'add_sub_two_numbers({a},{b},big_endian={big})'
 
         def check(ins, outs, L):
             for j in range(L):
@@ -687,7 +698,8 @@ def build_specs(eng):
 
         def bind(host, chosen):
             a, b = chosen[:n], chosen[n:]
-            return (lambda: A.add_subtract_with_compare(host, list(a), list(b), big_endian=big)), \
+            la, lb = list(a), list(b)
+            return (lambda: A.add_subtract_with_compare(host, la, lb, big_endian=big)), \
                 f'add_subtract_with_compare({a},{b},big_endian={big})'
 
         def results(rv):
@@ -716,7 +728,8 @@ def build_specs(eng):
 
         def bind(host, chosen):
             a, b = chosen[:n], chosen[n:]
-            return (lambda: A.add_div_mod(host, list(a), list(b), big_endian=big)), f'add_div_mod({a},{b},big_endian={big})'
+            la, lb = list(a), list(b)
+            return (lambda: A.add_div_mod(host, la, lb, big_endian=big)), f'add_div_mod({a},{b},big_endian={big})'
 
         def check(ins, outs, L):
             for j in range(L):
@@ -821,7 +834,7 @@ def build_specs(eng):
                     return ('x+1', f'lane {j}: ({ins[0][j]}+1) mod 2^{w} != {outs[0][j]} (n={n})')
             return None
 
-        spec = dict(need=n, bind=bind, operands=lambda ch: [_le(ch, big)], results=results, check=check)
+        spec = dict(need=n, bind=bind, operands=lambda ch: [_le(ch, big)], results=results, check=check, no_repeat=True)
         spec['marking_fn'] = lambda: (add_outputs, box.get('labels', []))
         return spec
 
@@ -866,7 +879,7 @@ def build_specs(eng):
                     return ('ite', f'lane {j}: if={i} then={t} else={e} -> {outs[0][j]}')
             return None
 
-        spec = dict(need=3, bind=bind, operands=lambda ch: [[ch[0]], [ch[1]], [ch[2]]], results=results, check=check)
+        spec = dict(need=3, bind=bind, operands=lambda ch: [[ch[0]], [ch[1]], [ch[2]]], results=results, check=check, no_repeat=True)
         spec['marking_fn'] = lambda: (add_outputs, box.get('labels', []))
         return spec
 
@@ -904,7 +917,7 @@ def build_specs(eng):
                             return ('pointwise', f'position {i}, lane {j}')
                 return None
 
-            spec = dict(need=k * n, bind=bind, operands=lambda ch: [[x] for x in ch], results=results, check=check)
+            spec = dict(need=k * n, bind=bind, operands=lambda ch: [[x] for x in ch], results=results, check=check, no_repeat=True)
             spec['marking_fn'] = lambda: (add_outputs, box.get('labels', []))
             return spec
         return plan
